@@ -20,8 +20,8 @@ import tempfile
 
 import numpy as np
 
-FAULTABLE = {"mkdtemp", "open", "write", "close", "copymode", "replace", "remove", "rmdir", "truncate"}
-ERRNOS = {"truncate": _errno.ENOSPC, "mkdtemp": _errno.EACCES, "open": _errno.EACCES, "write": _errno.ENOSPC, "close": _errno.EIO,
+FAULTABLE = {"mkdtemp", "open", "write", "close", "copymode", "replace", "remove", "rmdir", "truncate", "model_save"}
+ERRNOS = {"model_save": _errno.ENOSPC, "truncate": _errno.ENOSPC, "mkdtemp": _errno.EACCES, "open": _errno.EACCES, "write": _errno.ENOSPC, "close": _errno.EIO,
           "copymode": _errno.EPERM, "replace": _errno.EXDEV, "remove": _errno.EACCES, "rmdir": _errno.EBUSY}
 
 
@@ -366,16 +366,20 @@ class Shim:
         import onnx_ir._io as io_mod
         self.io_mod = io_mod
         self.saved["io_onnx"] = io_mod.__dict__.get("onnx")
-        if self.model_fault is not None:
-            import types
-            real_onnx, err = io_mod.onnx, self.model_fault
+        import types
+        real_onnx, err = io_mod.onnx, self.model_fault
 
-            def failing_save(proto, path, *a, **kw):
+        def logged_save(proto, path, *a, **kw):
+            # writing the MODEL file is one effect of ir.save (after the data files): kill point, can be failed
+            if err is not None:
                 c.log.append(("model_save_failed", os.fspath(path)))
                 raise OSError(err, os.strerror(err) + " (injected, model file)")
-            io_mod.onnx = types.SimpleNamespace(**{k: getattr(real_onnx, k) for k in ("load", "save", "ModelProto")
-                                                   if hasattr(real_onnx, k)})
-            io_mod.onnx.save = failing_save
+            c.tick("model_save")
+            c.log.append(("model_save",))
+            return real_onnx.save(proto, path, *a, **kw)
+        io_mod.onnx = types.SimpleNamespace(**{k: getattr(real_onnx, k) for k in ("load", "save", "ModelProto")
+                                               if hasattr(real_onnx, k)})
+        io_mod.onnx.save = logged_save
         self.saved["concurrent"] = ed.__dict__.get("concurrent")
         if self.pardet:
             ed.concurrent = _det_namespace()
@@ -774,6 +778,8 @@ def canon_log(log: list, canon: Canon) -> list:
             out.append((k, canon.comps(e[1]), canon.comps(e[2])))
         elif k in ("remove", "rmdir"):
             out.append((k, canon.comps(e[1])))
+        elif k == "model_save":
+            out.append(("model_save",))
         elif k == "fail":
             out.append(("fail", e[1] in ("remove", "rmdir")))
         else:
